@@ -255,6 +255,17 @@ impl<'a> Machine<'a> {
         }
     }
 
+    /// How far outside a region an address is still certainly in no other region. The stack is
+    /// private memory of the engine (heap or native stack), far away from the mmap'ed packet and
+    /// metadata arenas of the harness.
+    fn near(&self, r: u8) -> i64 {
+        if r == R_STACK {
+            1 << 20
+        } else {
+            NEAR
+        }
+    }
+
     /// Resolve an effective address for an access of `n` bytes.
     fn resolve(&self, base: Val, off: i64, n: usize) -> Access {
         match base.tag {
@@ -273,7 +284,7 @@ impl<'a> Machine<'a> {
                 let o = (base.bits as i64).wrapping_add(off);
                 if o >= 0 && o.checked_add(n as i64).map(|e| e <= len).unwrap_or(false) {
                     Access::Ok(r, o as usize)
-                } else if o > -NEAR && o < len + NEAR {
+                } else if o > -self.near(r) && o < len + self.near(r) {
                     Access::Err
                 } else {
                     Access::Undefined("address-far-outside-its-region")
